@@ -47,8 +47,21 @@ package object
 //@   ensures fresh(result) && result.store != nil && fresh(result.store) && result.outer == outer && emptymap(result.store)
 //@   modifies nothing
 
+// visible(e, key): key is bound in e or in a scope enclosing it (depends on the scopes'
+// maps and outer links, which are passed to the solver as arguments)
+//@ spec visible(e *Env, key string) bool reads Env.store, Env.outer, map[string]Object
+//@ spec visibleVal(e *Env, key string) Object reads Env.store, Env.outer, map[string]Object
+//@ axiom visibleDef(e *Env, key string): e != nil ==> visible(e, key) == (has(e.store, key) || (e.outer != nil && visible(e.outer, key)))
+//@ axiom visibleHere(e *Env, key string): e != nil && has(e.store, key) ==> visibleVal(e, key) == e.store[key]
+//@ axiom visibleOuter(e *Env, key string): e != nil && !has(e.store, key) && e.outer != nil ==> visibleVal(e, key) == visibleVal(e.outer, key)
+
 // Get finds the innermost binding of name
 //@ func (e *Env) Get
+//@   use visibleDef(e, name)
+//@   use visibleHere(e, name)
+//@   use visibleOuter(e, name)
+//@   ensures result1 == visible(e, name)
+//@   ensures result1 ==> same(result0, visibleVal(e, name))
 //@   ensures result1 ==> result0 != nil
 //@   ensures has(e.store, name) ==> result1 && result0 == e.store[name]
 //@   ensures !has(e.store, name) && e.outer == nil ==> !result1
@@ -57,6 +70,7 @@ package object
 //@ func (e *Env) isTypeMismatch
 //@   requires val != nil
 //@   ensures result1 ==> result0 != nil
+//@   ensures result1 == (visible(e, key) && objType(visibleVal(e, key)) != objType(val))
 //@   modifies nothing
 
 //@ func (e *Env) variableMismatchError
@@ -69,6 +83,7 @@ package object
 //@ func (e *Env) Set
 //@   requires val != nil
 //@   ensures key == "loop" ==> result != nil
+//@   ensures never-retypes-a-visible-name: old(visible(e, key)) && objType(old(visibleVal(e, key))) != objType(val) ==> result != nil
 //@   ensures result != nil ==> forallkey(e.store, k, old(has(e.store, k)) && e.store[k] == old(e.store[k]))
 //@   ensures result == nil ==> key != "loop" && has(e.store, key) && e.store[key] == val
 //@   ensures result == nil ==> forallkey(e.store, k, k != key ==> old(has(e.store, k)) && e.store[k] == old(e.store[k]))
